@@ -86,6 +86,13 @@ func (h ErrorHandler) errorPage(w http.ResponseWriter, r *http.Request, code int
 			return
 		}
 		defer errorPage.Close()
+		// (a directory opens fine and fails when it is read, after the
+		// header has been written)
+		if info, err := errorPage.Stat(); err != nil || info.IsDir() {
+			h.Log.Printf("[NOTICE %d %s] could not load error page: %s is not a readable file", code, r.URL.String(), pagePath)
+			httpserver.DefaultErrorFunc(w, r, code)
+			return
+		}
 		// Get content type by extension
 		contentType := mime.TypeByExtension(filepath.Ext(pagePath))
 		if contentType == "" {
@@ -97,9 +104,9 @@ func (h ErrorHandler) errorPage(w http.ResponseWriter, r *http.Request, code int
 		_, err = io.Copy(w, errorPage)
 
 		if err != nil {
-			// Epic fail... sigh.
+			// Epic fail... sigh. (The header is written and part of
+			// the page may be: nothing more can be sent.)
 			h.Log.Printf("[NOTICE %d %s] could not respond with %s: %v", code, r.URL.String(), pagePath, err)
-			httpserver.DefaultErrorFunc(w, r, code)
 		}
 
 		return
